@@ -20,6 +20,22 @@ func Re(alphabet []rune, depth int) *rapid.Generator[*ref.Re] {
 }
 
 func drawRe(t *rapid.T, alphabet []rune, depth int) *ref.Re {
+	// one case in eight: the catch-all shapes people actually write (and implementations like to special-case)
+	if depth > 0 && rapid.IntRange(0, 7).Draw(t, "common") == 0 {
+		anyRe := &ref.Re{Op: "any"}
+		switch rapid.IntRange(0, 4).Draw(t, "commonShape") {
+		case 0:
+			return &ref.Re{Op: "star", Subs: []*ref.Re{anyRe}} // .*
+		case 1:
+			return &ref.Re{Op: "plus", Subs: []*ref.Re{anyRe}} // .+
+		case 2:
+			return &ref.Re{Op: "opt", Subs: []*ref.Re{anyRe}} // .?
+		case 3:
+			return &ref.Re{Op: "cat", Subs: []*ref.Re{{Op: "lit", Lit: string(rapid.SampledFrom(alphabet).Draw(t, "pre"))}, {Op: "star", Subs: []*ref.Re{anyRe}}}} // x.*
+		default:
+			return &ref.Re{Op: "cat", Subs: []*ref.Re{{Op: "star", Subs: []*ref.Re{anyRe}}, {Op: "lit", Lit: string(rapid.SampledFrom(alphabet).Draw(t, "post"))}}} // .*x
+		}
+	}
 	leaf := func() *ref.Re {
 		switch rapid.IntRange(0, 5).Draw(t, "leaf") {
 		case 0:
